@@ -84,7 +84,7 @@ Lemma gms_content st ty sn st1 sid :
   b_items st1 = b_items st /\ b_lfs st1 = b_lfs st /\
   exists extra, b_sets st1 = b_sets st ++ extra /\ Forall (fun s => s_items s = []) extra.
 Proof.
-  unfold get_or_make_set. destruct (reg_find (b_phys st) ty sn); intros H; inv H.
+  unfold get_or_make_set. cbv zeta. destruct (reg_find (b_phys st) ty _); intros H; inv H.
   - repeat split. exists []. rewrite app_nil_r. auto.
   - cbn. repeat split. eexists. split; [reflexivity|]. constructor; [reflexivity | constructor].
 Qed.
@@ -104,7 +104,7 @@ Proof.
   - reflexivity.
   - exists []. rewrite app_nil_r. auto.
   - apply upd_map_same. intros y Hy. unfold lf_at in Hf. rewrite Hf in Hy. inv Hy.
-    unfold try_add_set. destruct (reg_find (l_reg y) ty sn); reflexivity.
+    unfold try_add_set. cbv zeta. destruct (reg_find (l_reg y) ty _); reflexivity.
 Qed.
 
 Lemma same_content_trans a b c : same_content a b -> same_content b c -> same_content a c.
@@ -262,7 +262,7 @@ Qed.
 
 Lemma gms_inv st ty sn st1 sid : get_or_make_set st ty sn = (st1, sid) -> Inv_copy st -> Inv_copy st1.
 Proof.
-  unfold get_or_make_set. destruct (reg_find (b_phys st) ty sn); intros H Hi; inv H; [exact Hi|].
+  unfold get_or_make_set. cbv zeta. destruct (reg_find (b_phys st) ty _); intros H Hi; inv H; [exact Hi|].
   unfold Inv_copy. cbn. apply inv_new_set; [reflexivity | exact Hi].
 Qed.
 
@@ -563,3 +563,43 @@ Qed.
 Theorem new_file_is_fresh ps st rest :
   run_program ps st (TL [TI 20] :: rest) = TL [TI 0] :: run_program ps b_init rest.
 Proof. reflexivity. Qed.
+
+(* ---------- C12: what a successful write presupposes ---------- *)
+
+Lemma check_objects_requires hc st l f st' :
+  check_objects hc st l f = OK st' ->
+  lf_origins st f <> [] /\ lf_channels st f <> [] /\ lf_frames st f <> []
+  /\ (forall c, In c (concat (map (frame_channels st) (lf_frames st f))) -> In c (lf_channels st f)).
+Proof.
+  unfold check_objects. destruct (lf_origins st f) as [|o os]; [discriminate|].
+  destruct (lf_channels st f) as [|c cs] eqn:Ec; [discriminate|]. cbn [nonnil negb].
+  destruct (lf_frames st f) as [|fr frs] eqn:Ef; [discriminate|]. cbn [nonnil negb].
+  destruct (forallb _ _) eqn:Eu; cbn [negb]; [|discriminate].
+  intros _. repeat split; try discriminate.
+  intros x Hx. rewrite forallb_forall in Eu. specialize (Eu x Hx). apply existsb_exists in Eu.
+  destruct Eu as (y & Hy & Heq). apply Nat.eqb_eq in Heq. subst. exact Hy.
+Qed.
+
+Lemma setup_frame_requires hc st l w wf st' rows :
+  setup_frame hc st l w wf = OK (st', rows) ->
+  exists f, lf_at st l = Some f /\
+    let merged := data_merge (l_data f) (match w_data w with Some d => d | None => [] end) in
+    let st1 := set_lf st l (set_ldata f merged) in
+    Forall (fun c => exists d, data_find merged (dataset_name_of (item_at st1 c)) = Some d
+                               /\ valid_dtype (match i_cast (item_at st1 c) with Some k => k | None => cd_code d end) = true
+                               /\ zlen (cd_shape d) <= 1)
+           (frame_channels st (wf_item wf)).
+Proof.
+  unfold setup_frame. destruct (lf_at st l) as [f|]; [|discriminate]. intros H. exists f. split; [reflexivity|].
+  cbn zeta. bind_inv H. clear H. rename H0 into Hgo.
+  set (merged := data_merge (l_data f) (match w_data w with Some d => d | None => [] end)) in *.
+  set (st1 := set_lf st l (set_ldata f merged)) in *.
+  assert (Hfc : frame_channels st1 (wf_item wf) = frame_channels st (wf_item wf)) by reflexivity.
+  revert a Hgo. generalize (frame_channels st (wf_item wf)) as cs.
+  induction cs as [|c cs IH]; intros a Hgo; [constructor|].
+  destruct (data_find merged (dataset_name_of (item_at st1 c))) as [d|] eqn:Ed; [|discriminate].
+  destruct (valid_dtype _) eqn:Ev; cbn [negb] in Hgo; [|discriminate].
+  destruct (1 <? zlen (cd_shape d)) eqn:Es; [discriminate|].
+  bind_inv Hgo. constructor; [|eapply IH; eassumption].
+  exists d. split; [first [exact Ed | reflexivity]|]. split; [exact Ev | lia].
+Qed.
